@@ -10,6 +10,7 @@
 EXTENDS GlomGroup
 
 CONSTANTS MaxKeyLevels, MaxItems, MaxTotal, ItemMax, MaxEvals, MaxDepth,
+          NegItems,     \* items range over -NegItems .. ItemMax (a cfg cannot say ItemMin = -1)
           WithIds,      \* TRUE: items also range over id() of the dict / list spec nodes
           KFs, Aggs, VFs,
           LimitNs       \* top-level Limit(n) for n in LimitNs; 99 = no Limit
@@ -17,12 +18,16 @@ CONSTANTS MaxKeyLevels, MaxItems, MaxTotal, ItemMax, MaxEvals, MaxDepth,
 NoLimit == 99
 
 Leaves(nk) ==
-  {LeafL("list", "", vf) : vf \in VFs}
-  \cup {LeafL("last", "", vf) : vf \in (VFs \ {"skip3", "inc"}) \cup (IF nk > 0 THEN VFs \cap {"skip3"} ELSE {})}
+  {LeafL("list", "", vf) : vf \in VFs \ {"inner"}}
+  \cup {LeafL("last", "", vf) : vf \in (VFs \ {"skip3", "inc", "inner"}) \cup (IF nk > 0 THEN VFs \cap {"skip3"} ELSE {})}
   \cup {LeafL("agg", a, "ident") : a \in Aggs \ {"Flatten", "Merge"}}
   \cup {LeafL("agg", "Sum", "inc") : a \in Aggs \cap {"Sum"}}
   \cup {LeafL("agg", "Flatten", "pair") : a \in Aggs \cap {"Flatten"}}
   \cup {LeafL("agg", "Merge", "kv") : a \in Aggs \cap {"Merge"}}
+  \* "inner" \in VFs: aggregators whose sub-spec is itself a Group (items are then small lists)
+  \cup {LeafL("agg", "Sum", "gsum") : a \in Aggs \cap {"Sum"}, v \in VFs \cap {"inner"}}
+  \cup {LeafL("agg", "Flatten", "gcount") : a \in Aggs \cap {"Flatten"}, v \in VFs \cap {"inner"}}
+  \cup {LeafL("agg", "Merge", "gbsum") : a \in Aggs \cap {"Merge"}, v \in VFs \cap {"inner"}}
 
 MkSpec(lim, kfs, leaf) ==
   (IF lim = NoLimit THEN <<>> ELSE <<LimitL(lim)>>)
@@ -35,7 +40,7 @@ IdSafe(sp) ==
      \/ L.op \in {"list", "last"} /\ L.val = "ident"
      \/ L.op = "agg" /\ L.agg \in {"First", "Count"}
 ItemsFor(sp) ==
-  {VInt(i) : i \in 0..ItemMax}
+  {VInt(i) : i \in (0 - NegItems)..ItemMax}
   \cup (IF WithIds /\ IdSafe(sp) THEN {IdVal(l) : l \in {m \in 1..Len(sp) : sp[m].op \in {"dict", "list"}}} ELSE {})
 
 Init ==
